@@ -459,6 +459,32 @@ func scenAdmission(rep *Report, tier string, seed int64) {
 			}
 			hasConv = false
 			shape = "TT-change"
+			if r.Intn(2) == 0 {
+				// the LATER transfer pays (part of) its input back to the sender: what it may spend is
+				// what is left BEFORE its own outputs come back
+				spend := left
+				switch r.Intn(4) {
+				case 0:
+					spend = left + 1
+				case 1:
+					spend = left + 1 + uint64(r.Intn(int(first-change)))
+				case 2:
+					if left > 1 {
+						spend = left - 1
+					}
+				}
+				back := spend - uint64(r.Intn(int(spend)))
+				if back > spend {
+					back = spend
+				}
+				outs2 := []fat2.AddressAmountTuple{{Address: in, Amount: back}}
+				if spend > back {
+					outs2 = append(outs2, fat2.AddressAmountTuple{Address: b2, Amount: spend - back})
+				}
+				txs = []fat2.Transaction{Transfer(in, t, outs...), Transfer(in, t, outs2...)}
+				overdraft = spend > left
+				shape = "TT-change-selfback"
+			}
 			if overdraft {
 				shape += "-overdraft"
 			}
